@@ -199,7 +199,7 @@ func runMulti(c *vf.Ctx, i int, rng *rand.Rand, nops int) {
 		} else {
 			w.log, w.failed, w.sawShadowIter, w.sawNetWrite = shared.log, shared.failed, shared.sawShadowIter, shared.sawNetWrite
 		}
-		w.emptyVals = w.baseKind != bCollect || rng.IntN(4) == 0
+		w.emptyVals = true
 		w.tag = fmt.Sprintf("store%d(%s) ", s, baseNames[w.baseKind])
 		m.chains = append(m.chains, w)
 		m.keys = append(m.keys, types.NewStoreKey(fmt.Sprintf("store%d", s)))
